@@ -308,5 +308,6 @@ def run_part(ctx):
             general.append(("general", doc, data))
     strict_tape(ctx, "text_special_ends", docs + general, "text_strict_cases")
     from props import C19_lex
+    # (documents where a quote is glued to a non-separator, `]"q k"`, are left out by judge_text: see C19_lex.quote_glued)
     C19_lex.judge_text(ctx, "text_token_special_ends", [d for _, _, d in docs if len(d) <= 130], "text_token_special_cases")
     run_views(ctx, docs + general[: ctx.scale(15, 200)])
